@@ -271,8 +271,18 @@ def operators(run):
                 if ka == "num":
                     return
                 before = R(ctx, a)
+                b_log_before = b.attrs["log_val"] if isinstance(b, Obj) else None
                 res = ex.inplace(ast.Add, a, b)
                 ra = before
+                same = res is a
+                ctx.run.ob("utils.LogRepFloat/+=-returns-the-accumulator", core.DISCHARGED if same else core.FAILED, "pyvc",
+                           detail="" if same else f"`a += b` rebinds a to another object ({'its operand b' if res is b else 'a new object'}) for kinds [{ka},{kb}]: "
+                           "later in-place accumulations then alias/mutate the operand",
+                           text="__iadd__ updates and returns self (operands are never aliased by the accumulator)")
+                if isinstance(b, Obj):
+                    unchanged = b.attrs["log_val"] is b_log_before
+                    ctx.run.ob("utils.LogRepFloat/+=-leaves-operand-unchanged", core.DISCHARGED if unchanged else core.FAILED, "pyvc",
+                               detail="" if unchanged else "`a += b` modified b")
         except PyRaise as pr:
             ctx.run.ob(oid, core.FAILED, "pyvc", detail=f"raised {exc_name(pr.exc)} {pr.exc.attrs.get('args')}")
             return
